@@ -435,6 +435,10 @@ class CommandMixin(object):
             cm.claim_refused = True
             self._no_others("C07", sub, "claim")
             return
+        if not existed and told is not None and self.lost_np.get((app, name)) not in (None, told):
+            self.v("C03", "same-mailbox-while-nameplate-lives", ev,
+                   "nameplate %r led to mailbox %r, was removed by a sweep although it was in use, and now "
+                   "leads its next claimant to %r" % (name, self.lost_np[(app, name)], told))
         np_rec = self.np_inc.get((app, name)) if existed else None
         mb_rec = self.mb_inc.get((app, mid)) if mid is not None else None
         ok_np = self._admission(np_rec, side)
